@@ -327,6 +327,15 @@ def brentMax (f : α → α) (sqrtEps gm xtol a b : α) (maxiter : Int) : Option
     some (r.1.xf, -r.1.fx, r.2, r.1.num)
   else none
 
+/-- `brent_max` with its argument checks (scalar_maximization.py 49-56): `ValueError` (`none`) when
+    `a` or `b` is not finite (`fin` is `np.isfinite`: a parameter, always true over a field) or
+    when `a < b` fails. -/
+def brentMaxEntry (fin : α → Bool) (f : α → α) (sqrtEps gm xtol a b : α) (maxiter : Int) :
+    Option (α × α × Nat × Nat) :=
+  if !fin a then none
+  else if !fin b then none
+  else brentMax f sqrtEps gm xtol a b maxiter
+
 end generic
 
 /-! ### nelder_mead (nelder_mead.py 116-122, 185-296, 320-337, 404-445) -/
@@ -524,6 +533,28 @@ def nelderMead (f : List α → α) (P : NMP α) (k105 zdelt : α) (bounds : Lis
   let b := r.1.sind.getD 0 0
   (r.1.verts.getD b [], -(r.1.fval.getD b 0), !r.2, r.1.nit, r.1.verts)
 
+/-- `_check_params` (nelder_mead.py 341-381): `true` = accepted, `false` = `ValueError`.
+    `bounds` arrives as its shape `(r, c)` and its rows. Note the weak inequalities of the code:
+    `ρ = 0`, `χ = 1`, `χ = ρ`, `γ ∈ {0, 1}`, `σ ∈ {0, 1}` are accepted although the messages say
+    "strictly". -/
+def checkParams (P : NMP α) (r c : Nat) (bounds : List (List α)) (n : Nat) : Bool :=
+  !decide (P.ρ < 0) && !decide (P.χ < 1) && !decide (P.χ < P.ρ) &&
+  !(decide (P.γ < 0) || decide (1 < P.γ)) && !(decide (P.σ < 0) || decide (1 < P.σ)) &&
+  ((r == 0 && c == 2) || (r == n && c == 2)) &&
+  !(bounds.any fun b => decide (b.getD 1 0 < b.getD 0 0))
+
+/-- `_nelder_mead_algorithm(fun, vertices, bounds, ρ, χ, γ, σ, tol_f, tol_x, max_iter)` — the entry
+    point with a caller-supplied simplex and caller-supplied coefficients: `none` = `ValueError` from
+    `_check_params`, otherwise `(x, fun, success, nit, final_simplex)`. `n = vertices.shape[1]`. -/
+def nmAlgorithm (f : List α → α) (P : NMP α) (r c : Nat) (boundsRows : List (List α))
+    (verts : List (List α)) (maxIter : Nat) : Option (List α × α × Bool × Nat × List (List α)) :=
+  if checkParams P r c boundsRows (verts.headD []).length then
+    let bounds : List (α × α) := if r = 0 then [] else boundsRows.map fun b => (b.getD 0 0, b.getD 1 0)
+    let res := nmLoop f P bounds maxIter (maxIter + 1) (nmInit f P bounds verts)
+    let b := res.1.sind.getD 0 0
+    some (res.1.verts.getD b [], -(res.1.fval.getD b 0), !res.2, res.1.nit, res.1.verts)
+  else none
+
 /-- test objective of the harness: `k − Σ_i (x_i−c_i)·(Σ_j A_ij (x_j−c_j))`, accumulated from 0 in
     index order -/
 def quadObj (A : List (List α)) (c : List α) (k : α) (x : List α) : α :=
@@ -574,9 +605,10 @@ open QE
 structure Sc (α : Type) where
   num : String → Option α
   shw : α → String
+  fin : α → Bool          -- `np.isfinite`
 
-def scFloat : Sc Float := ⟨parseFloat?, showFloatBits⟩
-def scRat : Sc Rat := ⟨parseRat?, showRat⟩
+def scFloat : Sc Float := ⟨parseFloat?, showFloatBits, Float.isFinite⟩
+def scRat : Sc Rat := ⟨parseRat?, showRat, fun _ => true⟩
 
 def showOut {α : Type} (sc : Sc α) : Out α → String
   | .ok r => sc.shw r.root ++ " " ++ toString r.calls ++ " " ++ toString r.iters ++ " " ++ showBool r.conv
@@ -640,11 +672,29 @@ def handleSc (sc : Sc α) (toks : List String) : String :=
     match kvProg sc r "f", kvNum sc r "a", kvNum sc r "b", kvNum sc r "xtol", kvNum sc r "sqrteps",
           kvNum sc r "gm", kvInt r "maxiter" with
     | some f, some a, some b, some xtol, some se, some gm, some mi =>
-      match brentMax (evalRPN f) se gm xtol a b mi with
+      match brentMaxEntry sc.fin (evalRPN f) se gm xtol a b mi with
       | some (xf, fval, flag, num) =>
         sc.shw xf ++ " " ++ sc.shw fval ++ " " ++ toString flag ++ " " ++ toString num
       | none => "ERR:ValueError"
     | _, _, _, _, _, _, _ => "bad-op"
+  | "checkparams" :: r =>
+    match kvNum sc r "rho", kvNum sc r "chi", kvNum sc r "gamma", kvNum sc r "sigma", kvNat r "br", kvNat r "bc",
+          (kv r "bounds").bind (parseMat? sc.num), kvNat r "n" with
+    | some ρ, some χ, some γ, some σ, some br, some bc, some bnds, some n =>
+      if checkParams (⟨ρ, χ, γ, σ, 0, 0, 0⟩ : NMP α) br bc bnds n then "ok" else "ERR:ValueError"
+    | _, _, _, _, _, _, _, _ => "bad-op"
+  | "nmalgo" :: r =>
+    match (kv r "A").bind (parseMat? sc.num), (kv r "c").bind (parseList? sc.num), kvNum sc r "k",
+          (kv r "verts").bind (parseMat? sc.num), kvNat r "br", kvNat r "bc", (kv r "bounds").bind (parseMat? sc.num),
+          kvNum sc r "rho", kvNum sc r "chi", kvNum sc r "gamma", kvNum sc r "sigma",
+          kvNum sc r "tolf", kvNum sc r "tolx", kvNat r "maxiter", kvNum sc r "pinf" with
+    | some A, some c, some k, some verts, some br, some bc, some bnds, some ρ, some χ, some γ, some σ,
+      some tolf, some tolx, some mi, some pinf =>
+      match nmAlgorithm (quadObj A c k) ⟨ρ, χ, γ, σ, tolf, tolx, pinf⟩ br bc bnds verts mi with
+      | some (x, fv, ok, nit, vs) =>
+        showList sc.shw x ++ " " ++ sc.shw fv ++ " " ++ showBool ok ++ " " ++ toString nit ++ " " ++ showMat sc.shw vs
+      | none => "ERR:ValueError"
+    | _, _, _, _, _, _, _, _, _, _, _, _, _, _, _ => "bad-op"
   | "neldermead" :: r =>
     match (kv r "A").bind (parseMat? sc.num), (kv r "c").bind (parseList? sc.num), kvNum sc r "k",
           (kv r "x0").bind (parseList? sc.num), (kv r "bounds").bind (parseMat? sc.num),
